@@ -138,7 +138,7 @@ class PointEngine(Engine):
         else:
             V = geom.draw_tri_cell(r, 1.0) * r.uniform(1.5, 3.0)
             if cfg['rotated']:
-                V = V @ geom.random_rotation(r).T
+                V = geom.snap_small(V @ geom.random_rotation(r).T)
             o = np.zeros(3) if cfg['origin_zero'] else geom.draw_origin(r, float(np.abs(V).max()), zero_ok=False)
             pos = []
             tries = 0
